@@ -590,9 +590,56 @@ func (e *Exec) builtin(b *ssa.Builtin, c *ssa.CallCommon, args []Term, res ssa.V
 	case "append":
 		return e.appendOp(c, args, res, reach, h)
 	case "copy":
-		// copy(dst, src): contents abstracted
+		// copy(dst, src) between slices of one element sort: memmove semantics. The destination
+		// window [off, off+n) of dst's row receives the source window (read from the OLD memory, so
+		// overlapping copies are right); every other cell of every row is unchanged.
 		dst := args[0]
+		if st, ok := c.Args[0].Type().Underlying().(*types.Slice); ok && args[1].Sort == SSlice {
+			so := u.sortOf(st.Elem())
+			ev := u.elemVar(so)
+			at := "at_" + sortTag(so)
+			src := args[1]
+			old := h.get(ev)
+			n := e.name(intT(ite(app("<=", app("s_len", dst.S), app("s_len", src.S)), app("s_len", dst.S), app("s_len", src.S))), "copy_n")
+			h2 := h.child()
+			nw := vc.fresh(ev+"!cp", u.heapSorts[ev])
+			h2.m[ev] = Term{S: nw, Sort: Sort(u.heapSorts[ev])}
+			if h2.births == nil {
+				h2.births = map[string]string{}
+			}
+			h2.births[ev] = h.birthOf(ev)
+			db, doff := app("s_base", dst.S), app("s_off", dst.S)
+			sb, soff := app("s_base", src.S), app("s_off", src.S)
+			// other rows
+			vc.def(fmt.Sprintf("(forall ((b Int)) (! (=> (not (= b %s)) (= (select %s b) (select %s b))) :pattern ((select %s b))))", db, nw, old, nw))
+			// the destination row, cell by cell
+			vc.def(fmt.Sprintf("(forall ((k Int)) (! (= (select (select %s %s) k) (ite (and (<= %s k) (< k (+ %s %s))) (select (select %s %s) (+ (- k %s) %s)) (select (select %s %s) k))) :pattern ((select (select %s %s) k))))",
+				nw, db, doff, doff, n.S, old, sb, doff, soff, old, db, nw, db))
+			// the same facts at accessor level (facts about at_X over the old memory are found from the new one)
+			vc.def(fmt.Sprintf("(forall ((s Slice) (k Int)) (! (=> (not (= (s_base s) %s)) (= (%s %s s k) (%s %s s k))) :pattern ((%s %s s k))))", db, at, nw, at, old, at, nw))
+			vc.def(fmt.Sprintf("(forall ((k Int)) (! (=> (and (<= 0 k) (< k %s)) (= (%s %s %s k) (%s %s %s k))) :pattern ((%s %s %s k))))", n.S, at, nw, dst.S, at, old, src.S, at, nw, dst.S))
+			// the removal idiom copy(p[a:], p[b:]): both windows are sub-slices of one parent slice p;
+			// state the effect on p's own accessor so that facts about p's elements carry over
+			if ds, ok1 := c.Args[0].(*ssa.Slice); ok1 {
+				if ss, ok2 := c.Args[1].(*ssa.Slice); ok2 && ds.X == ss.X {
+					if _, isSl := ds.X.Type().Underlying().(*types.Slice); isSl {
+						p := e.val(ds.X)
+						dlo, slo := "0", "0"
+						if ds.Low != nil {
+							dlo = e.val(ds.Low).S
+						}
+						if ss.Low != nil {
+							slo = e.val(ss.Low).S
+						}
+						vc.def(fmt.Sprintf("(forall ((j Int)) (! (=> (and (<= 0 j) (< j (s_len %s))) (= (%s %s %s j) (ite (and (<= %s j) (< j (+ %s %s))) (%s %s %s (+ (- j %s) %s)) (%s %s %s j)))) :pattern ((%s %s %s j))))",
+							p.S, at, nw, p.S, dlo, dlo, n.S, at, old, p.S, dlo, slo, at, old, p.S, at, nw, p.S))
+					}
+				}
+			}
+			return n, h2
+		}
 		if st, ok := c.Args[0].Type().Underlying().(*types.Slice); ok {
+			// copy from a string: contents abstracted
 			ev := u.elemVar(u.sortOf(st.Elem()))
 			cms := newModSet()
 			cms.add(ev, 2)
